@@ -255,14 +255,18 @@ PROPS = {
                     "(regenerated go-closure call table): the helper goroutines of a run call nothing that draws; every "
                     "place where the iteration order of a Go map could reach a result (regenerated list of map ranges in "
                     "library and factory) is on a reviewed list (MapOrderFacts); every Maximum answers with a uniform hint "
-                    "per regime (CheckFacts).",
+                    "per regime (CheckFacts). The closest-stop lists the island un-plan operators walk come out of a k-d tree "
+                    "whose visiting order depends on a process-wide random source (E43, repaired): NR.Closest models the "
+                    "repaired query, proved independent of the visiting order and equal to the first n of all other stops in "
+                    "(distance, index) order (C12C), tied to the code by the `closest` stream (every query on freshly built "
+                    "objects, layouts with exact ties).",
             "note": TB_COMMON + " math/rand is an abstract stream; 'any machine load' is approximated by injected delays.",
             "technique": "Lean 4 proof (stream-splitting theorem + counterexample) + repetition differential under schedule perturbation",
             "design_ref": "DESIGN.md §5 C12",
         },
-        "lean_props": ["C12"],
+        "lean_props": ["C12", "C12C"],
         "facts": ["ShapeFacts", "CheckFacts", "MapOrderFacts"],
-        "streams": [{"name": "repro", "corpus": True, "model": False}],
+        "streams": [{"name": "repro", "corpus": True, "model": False}, {"name": "closest", "corpus": True}],
     },
     "C13": {
         "claim": {
